@@ -68,6 +68,10 @@ type c08Case struct {
 	// and no_new_privs request: an equal program was handed to the kernel before, by another thread. The load under
 	// test has to install its filter all the same.
 	PriorSame bool `json:"prior_same,omitempty"`
+	// Both: one probe syscall is listed with AND without conditions in one group - a defect the compiler has to refuse.
+	// If LoadFilter accepts the policy all the same, the group lists the syscall by name: every call of it gets the
+	// group's action, whatever the arguments.
+	Both bool `json:"both,omitempty"`
 }
 
 func archOfGOARCH(g string) string {
@@ -182,6 +186,23 @@ func drawC08(t *rapid.T) c08Case {
 	}
 	c.Events = evs
 	c.Strace = rapid.IntRange(0, 9).Draw(t, "strace") == 0
+	if rapid.IntRange(0, 11).Draw(t, "both") == 0 {
+		// copy the name of a conditional entry into the names of its group
+		for gi := range c.Policy.Groups {
+			g := &c.Policy.Groups[gi]
+			if len(g.Conds) > 0 && isProbe(g.Conds[0].Name) {
+				dup := false
+				for _, n := range g.Names {
+					dup = dup || n == g.Conds[0].Name
+				}
+				if !dup {
+					g.Names = append(append([]string(nil), g.Names...), g.Conds[0].Name)
+					c.Both = true
+					break
+				}
+			}
+		}
+	}
 	c.Prior = rapid.IntRange(0, 4).Draw(t, "prior") == 0
 	c.PriorSame = c.Prior && rapid.Bool().Draw(t, "priorSame")
 	return c
@@ -239,6 +260,10 @@ func checkC08(raw json.RawMessage) (ev.Result, error) {
 		return ev.Result{}, ev.Inconclusivef("policy architecture %s does not match child ABI %s", p.Arch, c.GOARCH)
 	}
 	cp, cerr, pan := compilePolicy(p)
+	if c.Both && pan == nil && cerr != nil {
+		// refused, as it should be: nothing is installed, nothing to observe
+		return ev.Result{Classes: []string{"defective-policy-refused(no-claim)"}}, nil
+	}
 	if pan != nil || cerr != nil {
 		return ev.Result{}, fmt.Errorf("probe policy does not compile: %v %v", cerr, pan)
 	}
